@@ -190,9 +190,22 @@ def r3_queue(ctx):
         kinds = set()
         for o in an.rets:
             ins = [c for c in o.state.calls if c[0].endswith('HashSet::<T, S, A>::insert')]
+            con = [c for c in o.state.calls if c[0].endswith('HashSet::<T, S, A>::contains')]
             pb = [c for c in o.state.calls if c[0].endswith('VecDeque::<T, A>::push_back')]
-            ok = len(ins) == 1
-            if ok:
+            # membership is decided once: by the answer of insert, or by contains followed (only if absent) by insert
+            ok = (len(ins) == 1 and not con) or (len(con) == 1 and len(ins) <= 1)
+            if ok and con:
+                known = T.typed(calllog.call_term(con[0]), 'bool')
+                if ip.entails(o.state, NOT(known)):
+                    ok = len(ins) == 1 and len(pb) == 1 and isinstance(o.value, tuple) and ip.entails(o.state, o.value) and pb[0][1][1] in (el, ins[0][1][1]) and con[0][1][1] == el
+                    role = 'new-element-enqueued'
+                elif ip.entails(o.state, known):
+                    ok = not ins and not pb and isinstance(o.value, tuple) and ip.entails(o.state, NOT(o.value))
+                    role = 'known-element-not-enqueued'
+                else:
+                    ok, role = False, 'single-membership-test'
+                kinds.add(role)
+            elif ok:
                 fresh = T.typed(calllog.call_term(ins[0]), 'bool')
                 if fresh in o.state.pcset:
                     ok = len(pb) == 1 and o.value == TRUE and pb[0][1][1] in (el, ins[0][1][1])
